@@ -558,6 +558,7 @@ class Expander:
         b_s, b_e = src.toks[item.body_open].e, src.toks[src.match[item.body_open]].s
         body = src.text[b_s:b_e]
         frm = thr = None
+        thr_stmt = False
         rewrites = []
         inserts = []   # (anchor, [payload lines], d_line)
         for d_line, d in block:
@@ -570,6 +571,9 @@ class Expander:
                 frm = d.split(None, 1)[1]
             elif d.startswith("//@through-block-re "):
                 thr = d.split(None, 1)[1]
+            elif d.startswith("//@through-stmt-re "):
+                thr = d.split(None, 1)[1]
+                thr_stmt = True
             elif d.startswith("//@rewrite "):
                 a, b = [x.strip() for x in d.split(None, 1)[1].split("~~>", 1)]
                 rewrites.append((a, b, d_line))
@@ -586,13 +590,25 @@ class Expander:
             raise ExtractError(f"{src.label}:{name}: fragment end anchor matches {len(ms)} times: {thr!r}")
         if ms[0].start() < start:
             raise ExtractError(f"{src.label}:{name}: fragment end anchor precedes its start anchor")
-        # first `{` token after the through-match, at any depth, and its partner
         k = item.body_open + 1
-        while k < len(src.toks) and not (src.toks[k].s >= b_s + ms[0].end() and src.is_p(k, "{")):
-            k += 1
-        if k >= src.match[item.body_open]:
-            raise ExtractError(f"{src.label}:{name}: no block after fragment end anchor")
-        end = src.toks[src.match[k]].e - b_s
+        if thr_stmt:
+            # the `;` that ends the statement containing the through-match (groups skipped)
+            while k < len(src.toks) and src.toks[k].e <= b_s + ms[0].start():
+                k += 1
+            while k < src.match[item.body_open] and not src.is_p(k, ";"):
+                if src.toks[k].kind == "p" and src.text[src.toks[k].s] in "([{":
+                    k = src.match[k]
+                k += 1
+            if k >= src.match[item.body_open]:
+                raise ExtractError(f"{src.label}:{name}: no `;` after fragment end anchor")
+            end = src.toks[k].e - b_s
+        else:
+            # first `{` token after the through-match, at any depth, and its partner
+            while k < len(src.toks) and not (src.toks[k].s >= b_s + ms[0].end() and src.is_p(k, "{")):
+                k += 1
+            if k >= src.match[item.body_open]:
+                raise ExtractError(f"{src.label}:{name}: no block after fragment end anchor")
+            end = src.toks[src.match[k]].e - b_s
         text = body[start:end]
         first_line = src.line_of(b_s + start)
         for a, b, d_line in rewrites:
